@@ -23,7 +23,13 @@ type EnvCase struct {
 	Vals1    map[string]*m.Val `json:"vals1"` // run-time environment E1
 	Muts     []string          `json:"muts,omitempty"`
 	Warm     bool              `json:"warm,omitempty"` // an accepted invocation with the sample comes first
+	// Mixed: the binding mm (map[str, list[num]], not used by the program) arrives at run time as
+	// a Go map[string][]interface{} whose entries hold lists of different element types -
+	// inconsistent host data, which must be refused like any other mismatch
+	Mixed bool `json:"mixed,omitempty"`
 }
+
+const mixedName = "mm"
 
 func conforms(e0 map[string]*m.Type, e1 map[string]*m.Val) bool {
 	for n, t := range e0 {
@@ -125,6 +131,16 @@ func genEnvCase(t *rapid.T) *EnvCase {
 	}
 	c.Form1 = forms1[rapid.IntRange(0, len(forms1)-1).Draw(t, "form1")]
 	c.Warm = rapid.Bool().Draw(t, "warm")
+	if _, taken := c.Vals[mixedName]; !taken && hostOK && host1 && rapid.IntRange(0, 7).Draw(t, "mixed") == 0 {
+		if _, mapOK := run.EnvMap(c.Vals1); mapOK {
+			c.Mixed, c.Form1 = true, "map"
+			mv := m.VMap(m.Str, m.List(m.Num), m.Entry{K: m.VStr("a"), V: m.VList(m.Num, m.VNum(1))})
+			c.Vals[mixedName], c.Env[mixedName], c.Vals1[mixedName] = mv, mv.T, mv
+			for n, v := range c.Vals1 {
+				c.Vals1[n] = v.Conform(nil)
+			}
+		}
+	}
 	if c.Form1 != "raw" {
 		for n, v := range c.Vals1 {
 			c.Vals1[n] = v.Conform(nil) // host data has one field order per position
@@ -183,7 +199,7 @@ func checkC07(c *EnvCase) *Outcome {
 	if r.RefErr != nil {
 		return skip("harness:reference-rejects-generated-program")
 	}
-	conf := conforms(c.Env, c.Vals1)
+	conf := conforms(c.Env, c.Vals1) && !c.Mixed
 	sameGo := false
 	// expected result on E1
 	var r1 *CaseRun
@@ -218,6 +234,13 @@ func checkC07(c *EnvCase) *Outcome {
 		if !ok1 {
 			return skip("form-unavailable")
 		}
+		if c.Mixed {
+			mp, isMap := e1.(map[string]interface{})
+			if !isMap {
+				return skip("form-unavailable")
+			}
+			mp[mixedName] = map[string][]interface{}{"a": {1.0}, "b": {"x"}, "c": {2.0, 3.0}}
+		}
 		if c.Form0 != "raw" && c.Form1 != "raw" && reflect.TypeOf(e0) == reflect.TypeOf(e1) {
 			sameGo = true
 		}
@@ -249,8 +272,12 @@ func checkC07(c *EnvCase) *Outcome {
 			}
 		}
 		steps = append(steps, step{"first", e1}, step{"same object again", e1})
-		if e1b, okb := envObject(en, c.Form1, c.Vals1, false); okb {
+		if e1b, okb := envObject(en, c.Form1, c.Vals1, false); okb && !c.Mixed {
 			steps = append(steps, step{"fresh object, same contents", e1b})
+		}
+		if c.Mixed {
+			// Go's map iteration decides which entry conversion meets first: a few more tries
+			steps = append(steps, step{"same object, third time", e1}, step{"same object, fourth time", e1})
 		}
 		for _, st := range steps {
 			o := &run.Outcome{Be: be}
@@ -291,6 +318,9 @@ func checkC07(c *EnvCase) *Outcome {
 	if c.Warm {
 		classes = append(classes, fmt.Sprintf("accepted-call-first:conforms=%v", conf))
 	}
+	if c.Mixed {
+		classes = append(classes, "inconsistent-host-map-as-binding")
+	}
 	if sameGo {
 		classes = append(classes, fmt.Sprintf("same-go-type:conforms=%v", conf))
 	}
@@ -322,7 +352,7 @@ func valsSummary(vals map[string]*m.Val) string {
 var c07 = Register(&Prop[EnvCase]{ID: "C07", Name: "env-check", Gen: genEnvCase, Check: checkC07})
 
 func TestC07(t *testing.T) {
-	R.Rule = "pairs (compile-time environment E0, run-time environment E1): E0 in one of five physical forms (raw types.Env, Go struct built by reflection with yae tags, map[string]interface{}, Go struct of interface{} fields, Go struct of untagged pointer fields — the last two give one Go type to environments of different yae types), E1 derived from a conforming environment by 0-3 mutations (drop a name, retype a binding at a drawn depth, add extra names, permute object field order at every depth, make a binding optional, other values of the same types) and given in a drawn physical form; the Callable is invoked with E1 three times (first, the same object again, a fresh object of the same contents), half of the time after an accepted call with the compile-time sample, and every invocation is judged alike; programs over E0's names with effect-recording wrappers; oracle: model predicate conforms(E0,E1); conforming => accepted and result = reference evaluator on E1; non-conforming => error returned, no panic, empty effect log; non-trivial = at least one mutation or a change of physical form"
+	R.Rule = "pairs (compile-time environment E0, run-time environment E1): E0 in one of five physical forms (raw types.Env, Go struct built by reflection with yae tags, map[string]interface{}, Go struct of interface{} fields, Go struct of untagged pointer fields — the last two give one Go type to environments of different yae types), E1 derived from a conforming environment by 0-3 mutations (drop a name, retype a binding at a drawn depth, add extra names, permute object field order at every depth, make a binding optional, other values of the same types, or an unused binding arriving as a Go map whose entries hold lists of different element types) and given in a drawn physical form; the Callable is invoked with E1 three times (first, the same object again, a fresh object of the same contents), half of the time after an accepted call with the compile-time sample, and every invocation is judged alike; programs over E0's names with effect-recording wrappers; oracle: model predicate conforms(E0,E1); conforming => accepted and result = reference evaluator on E1; non-conforming => error returned, no panic, empty effect log; non-trivial = at least one mutation or a change of physical form"
 	R.Assume = []string{"model.Equal is structural type equality (fields by name)", "host forms built by run/host.go denote the model values (this is C15's subject)"}
 	reportKnown(t, "C07")
 	runRegress(t, "C07")
